@@ -4,6 +4,8 @@
                                            (the eight lists in wire form) | err <kind>
     parse <side> <8 wire lists> <seqno>  → ok <strict'> <kex> <hostkey> <lcipher> <rcipher> <lmac> <rmac> <lcomp>
                                               <rcomp> <extinfo|none>   | err <kind>
+    set   <side> <cat> <list>            → ok|raised <prefKex> <prefKeys> <prefCiphers> <prefMacs> <prefComp>
+                                           (SecurityOptions assignment; cat = kex|keys|ciphers|macs|compression)
     first <client list> <server list>    → the Lean *spec* firstCommon: name | none   (configuration-list tokens)
   <side> = role(c|s) moduli(0|1) advertiseStrict(0|1) agreedStrict(0|1) initialKexDone(0|1)
            prefKex prefKeys prefCiphers prefMacs prefComp disKex disKeys disCiphers disMacs disComp serverKeys
@@ -64,6 +66,17 @@ def step (line : String) : String :=
           [r.kex, r.hostKey, r.localCipher, r.remoteCipher, r.localMac, r.remoteMac, r.localComp, r.remoteComp].map toHexTok
           ++ [match r.remoteExtInfo with | some x => toHexTok x | none => "none"])
       | .error e => showErr e
+    | _, _, _ => "bad-op"
+  | "set" :: rest =>
+    if rest.length != 18 then "bad-op" else
+    let cat? : Option Cat := match (rest.drop 16).head? with
+      | some "kex" => some .kex | some "keys" => some .keys | some "ciphers" => some .ciphers
+      | some "macs" => some .macs | some "compression" => some .compression | _ => none
+    match side? (rest.take 16), cat?, (rest.drop 17).head?.bind cfgList? with
+    | some s, some c, some x =>
+      let r := setPref PV.Generated.C05.info s c x
+      " ".intercalate ([if r.2 then "raised" else "ok"] ++
+        [r.1.prefKex, r.1.prefKeys, r.1.prefCiphers, r.1.prefMacs, r.1.prefComp].map showCfg)
     | _, _, _ => "bad-op"
   | ["first", c, s] =>
     match cfgList? c, cfgList? s with
